@@ -112,7 +112,16 @@ fn handle(line: &str) -> J {
             };
             generated::dispatch(j["tid"].as_u64().unwrap() as u32, &c)
         }
-        m => pure_modes::handle(m, &j),
+        m => {
+            // the pure helpers must not panic either: report a panic as an observation of its own
+            match catch_unwind(AssertUnwindSafe(|| pure_modes::handle(m, &j))) {
+                Ok(v) => v,
+                Err(e) => {
+                    let msg = e.downcast_ref::<String>().cloned().or_else(|| e.downcast_ref::<&str>().map(|s| s.to_string())).unwrap_or_default();
+                    json!({"impl_panic": msg, "mode": m})
+                }
+            }
+        }
     }
 }
 
